@@ -14,6 +14,11 @@ class MachineryError(Exception):
 # a program that produces no answer for this long is treated as hanging (the executor flushes at least every 200 ms of work)
 HANG_S = float(os.environ.get("VERIF_HANG_S", "150"))
 
+# program -> the sequence of programs (one process, in this order, the program last) that kills the executor although the program alone
+# does not: deaths that depend on what the process did before (heap layout, addresses), reproduced twice in fresh processes
+SEQ_CRASH = {}
+HISTORY_CAP = 96 << 20
+
 
 class Executor:
     def __init__(self, build_name, wrapper=None):
@@ -25,8 +30,13 @@ class Executor:
         self.programs_run = 0
         self.ops_run = 0
         self.restarts = 0
+        self.history = []           # programs answered by the current process, oldest first
+        self.history_bytes = 0
+        self.last_rc = None
 
     def _start(self):
+        self.history = []
+        self.history_bytes = 0
         self.proc = subprocess.Popen(self.wrapper + [self.path], stdin=subprocess.PIPE, stdout=subprocess.PIPE,
                                      stderr=subprocess.DEVNULL, bufsize=1 << 16)
 
@@ -63,6 +73,7 @@ class Executor:
             done, _ = self._run_batch(programs, start, results)
             if done == len(programs):
                 break
+            prior = list(self.history) if self.history_bytes <= HISTORY_CAP else None
             self._kill()
             self.restarts += 1
             j = done
@@ -79,11 +90,56 @@ class Executor:
                 self._kill()
                 break
             if culprit is None:
-                # nothing dies alone: machinery problem, not a verdict
-                raise MachineryError("executor %s died on a batch but on none of its programs alone (first unanswered: %s)"
-                                     % (self.build, programs[done][:200]))
+                culprit = self._sequence_death(prior, programs, done, results)
             start = culprit + 1
         return results
+
+    def _sequence_death(self, prior, programs, done, results):
+        """The process died during programs[done:], none of them dies alone. The same sequence (everything the dead process had run,
+        then programs[done:]) is fed to a fresh process one program at a time; a death at the same program in two fresh processes is a
+        crash of the code under test that depends on the history of the process (addresses), and is reported as one. Anything else
+        is a machinery problem, not a verdict."""
+        if prior is None:
+            raise MachineryError("executor %s died on a batch but on none of its programs alone; history too large to replay (first unanswered: %s)"
+                                 % (self.build, programs[done][:200]))
+        seq = prior + programs[done:]
+        where = []
+        for attempt in range(2):
+            fresh = Executor(self.build, self.wrapper)
+            k = None
+            try:
+                limit = len(seq) if not where else where[0] + 1
+                for i in range(limit):
+                    alone = [None]
+                    d2, hung = fresh._run_batch([seq[i]], 0, alone)
+                    if d2 != 1:
+                        k = (i, hung)
+                        break
+            finally:
+                fresh._kill()
+            if k is None:
+                raise MachineryError("executor %s died on a batch but on none of its programs alone, and not when the whole sequence "
+                                     "of %d programs is replayed (first unanswered: %s)" % (self.build, len(seq), programs[done][:200]))
+            where.append(k[0])
+            hung = k[1]
+        if where[0] != where[1]:
+            raise MachineryError("executor %s: death of the replayed sequence is not stable (%s, history %d)" % (self.build, where, len(prior)))
+        # fed one program at a time the layout of the process is not the one of the batch, and the death may come earlier than in the
+        # batch (at a program the dead process had answered): the sequence up to it is the counterexample all the same - a fresh
+        # process dies at its last program, twice - and it is recorded with the first unanswered program of the batch
+        j = max(where[0] - len(prior), 0) + done
+        SEQ_CRASH[programs[j]] = seq[:where[0] + 1]
+        # the programs between the first unanswered one and the culprit were answered by neither process: run them now
+        for i in range(done, j):
+            if results[i] is None:
+                alone = [None]
+                d2, _ = self._run_batch([programs[i]], 0, alone)
+                if d2 != 1:
+                    raise MachineryError("executor %s: unstable death at %s" % (self.build, programs[i][:200]))
+                results[i] = alone[0]
+        results[j] = ["HANG" if hung else "CRASH"]
+        self._kill()
+        return j
 
     def _run_batch(self, programs, start, results):
         """-> (index of the first program without an answer, killed-by-watchdog?)"""
@@ -108,9 +164,11 @@ class Executor:
         t.start()
         state = {"last": time.time(), "done": False, "hung": False}
 
+        fin = threading.Event()
+
         def watchdog():
             while not state["done"]:
-                time.sleep(0.5)
+                fin.wait(0.5)
                 if not state["done"] and time.time() - state["last"] > HANG_S:
                     state["hung"] = True
                     try:
@@ -137,14 +195,26 @@ class Executor:
                 rest = "" if sp < 0 else line[sp + 1:]
                 obs = rest.split(";") if rest else []
                 results[i] = obs
+                if self.history_bytes <= HISTORY_CAP:
+                    self.history.append(programs[i])
+                    self.history_bytes += len(programs[i]) + 64
                 self.programs_run += 1
                 self.ops_run += len(obs)
                 i += 1
         finally:
             state["done"] = True
+            fin.set()
+            wd.join(timeout=2)
         if i < len(programs):
             # process died; writer thread ends with a broken pipe
             t.join(timeout=5)
+            try:
+                self.last_rc = proc.wait(timeout=5)
+            except Exception:
+                self.last_rc = None
+            if self.last_rc == -9 and not state["hung"]:
+                # SIGKILL that the watchdog did not send: the kernel's out-of-memory killer (or an operator), never the code under test
+                raise MachineryError("executor %s was killed with SIGKILL from outside (out of memory?) at %s" % (self.build, programs[i][:200]))
             return i, state["hung"]
         t.join()
         return i, False
